@@ -34,6 +34,7 @@ def showCb : Callback → String
   | .kbd c d k => s!"kbd c{c} {d.toNat} {k}"
   | .ptr c m x y => s!"ptr c{c} {m} {x} {y}"
   | .cut c t => s!"cut c{c} {t.length} {hex64 (fnv t)}"
+  | .cutUtf8 c t => s!"cutu8 c{c} {t.length} {hex64 (fnv t)}"
 
 def stName : St → String
   | .pv => "pv" | .sec => "sec" | .auth => "auth" | .init => "init" | .normal => "normal"
@@ -59,13 +60,13 @@ def parseCuts (toks : List String) : List Nat :=
   | none => []
   | some t => ((t.drop 5).toString.splitOn ",").filterMap (·.toNat?)
 
-def deliver (orc : AuthOracle) (d : DState) (s : Server) (i : Nat) (bs : List UInt8) (cuts : List Nat) :
+def deliver (orc : Oracles) (d : DState) (s : Server) (i : Nat) (bs : List UInt8) (cuts : List Nat) :
     DState × List String :=
   let chunks := cutAt bs 0 cuts
   let (s', cbs) := processChunks orc (bs.length + 1) s i [] chunks
   report d s' cbs
 
-def noAuth : AuthOracle := fun _ => none
+def noAuth : Oracles := noOracles
 
 def scaleHash (f t x0 x1 : Nat) : UInt64 :=
   let rec go : Nat → Nat → UInt64 → UInt64
@@ -113,14 +114,30 @@ def dstep (d : DState) (toks : List String) : DState × List String :=
       match s.find i with
       | some c =>
         if !c.isOpen ∨ c.st ≠ .auth then (d, ["bad-op"]) else
-        let orc? : Option AuthOracle :=
-          if kind = "full" then some (fun _ => some false)
-          else if kind = "view" then some (fun _ => some true)
-          else if kind = "bad" then some (fun _ => none) else none
+        let orc? : Option Oracles :=
+          if kind = "full" then some ⟨fun _ => some false, fun _ => none⟩
+          else if kind = "view" then some ⟨fun _ => some true, fun _ => none⟩
+          else if kind = "bad" then some noOracles else none
         match orc? with
         | some orc => deliver orc d s i (List.replicate 16 0) (parseCuts rest)
         | none => (d, ["bad-op"])
       | none => (d, ["bad-op"])
+    | none => (d, ["bad-op"])
+  | some s, "sendprov" :: id :: fl :: plain :: rest =>
+    -- extended-clipboard Provide: the harness deflates `plain` with zlib; here the payload is the
+    -- plain stream itself and the inflate oracle is the identity (law: inflate (compress s) = s)
+    match id.toNat?, unhex? fl, unhex? plain with
+    | some i, some fb, some pl =>
+      if !s.isLive i ∨ fb.length ≠ 4 then (d, ["bad-op"]) else
+      let n := 4 + pl.length
+      let len32 := 4294967296 - n
+      let hdr : List UInt8 := [6, 0, 0, 0, UInt8.ofNat (len32 / 16777216), UInt8.ofNat (len32 / 65536),
+        UInt8.ofNat (len32 / 256), UInt8.ofNat len32]
+      deliver ⟨fun _ => none, fun x => some x⟩ d s i (hdr ++ fb ++ pl) (parseCuts rest)
+    | _, _, _ => (d, ["bad-op"])
+  | some s, ["hookvo", v] =>
+    match v.toNat? with
+    | some v => report d { s with hookViewOnly := v != 0 } []
     | none => (d, ["bad-op"])
   | some s, ["viewonly", id, v] =>
     match id.toNat?, v.toNat? with
